@@ -75,6 +75,12 @@ Proof.
     exists (a ++ slash :: y), c. split; [rewrite <- app_assoc; reflexivity|exact Hc].
 Qed.
 
+Lemma join_not_dirlike : forall k, wf_key k -> ends_with (join k) (lit "/") = false.
+Proof.
+  intros k [Hne Hk]. destruct (join_last k Hk Hne) as [y [c [E Hc]]]. rewrite E. change (lit "/") with [slash]. rewrite ends_with_snoc.
+  destruct (Ascii.eqb slash c) eqn:Ec; [apply Ascii.eqb_eq in Ec; subst; contradiction|reflexivity].
+Qed.
+
 Lemma lstrip_join : forall k, Forall wf_seg k -> lstrip_slash (join k) = join k.
 Proof.
   intros k Hk. destruct k as [|a k]; [reflexivity|].
@@ -546,21 +552,17 @@ Section Local.
     pose proof (pp_under k p Hp) as Hu. rewrite (Hpf p k (Hf p Hfile) Hk) in Hu. discriminate.
   Qed.
 
-  Lemma not_is_dir : forall s k, linv KS s -> In k KS -> k <> [] -> is_dir s k = false.
-  Proof. intros s k [_ [Hd _]] Hk Hne. unfold is_dir. destruct k; [contradiction|]. apply no_dir; assumption. Qed.
-
-  Lemma missing_notfound : forall s k, linv KS s -> In k KS -> k <> [] -> missing s k = OErr NotFound.
-  Proof. intros s k Hi Hk Hne. unfold missing. rewrite (not_is_dir s k Hi Hk Hne), (not_below_file s k Hi Hk). reflexivity. Qed.
-
-  Lemma local_sim_step : forall s o, linv KS s -> wf_op o -> (forall k, In k (op_key o) -> In k KS) ->
+  (* a probe may name ANY well-formed key: a written key, a directory of one, a path below one, or nothing *)
+  Lemma local_sim_step : forall s o, linv KS s -> wf_op o -> (forall k, In k (op_written o) -> In k KS) ->
     exists dirs', local_step s o = ({| lfiles := fst (spec_step (lfiles s) o); ldirs := dirs' |}, snd (spec_step (lfiles s) o))
                   /\ linv KS {| lfiles := fst (spec_step (lfiles s) o); ldirs := dirs' |}.
   Proof.
     intros s o Hi Ho Hin. pose proof Hi as [Hf [Hd Hp]].
-    destruct o as [k v|k|k|d|k|k|k|k prog|k|k v|k]; cbn [local_step spec_step fst snd wf_op op_key] in *;
+    destruct o as [k v|k|k|d|k|k|k|k prog|k|k v|k]; cbn [local_step spec_step fst snd wf_op op_written missing] in *;
       try (destruct Ho as [[Hne Hk] Hprog]);
-      try (destruct Ho as [Hne Hk]); try (pose proof (Hin k (or_introl eq_refl)) as HkKS).
+      try (destruct Ho as [Hne Hk]).
     - (* Write *)
+      pose proof (Hin k (or_introl eq_refl)) as HkKS.
       unfold local_write. rewrite (not_below_file s k Hi HkKS).
       set (dirs' := add_dirs (proper_prefixes k) (ldirs s)).
       assert (dirs_ok KS dirs') as Hd'.
@@ -574,10 +576,9 @@ Section Local.
       + intros x p Hx Hpp. apply add_dirs_In. apply upsert_keys in Hx. destruct Hx as [->|Hx]; [left; exact Hpp|right; eapply Hp; eassumption].
     - (* Read *)
       exists (ldirs s). split; [|destruct s; exact Hi]. destruct s as [fs ds]. cbn [lfiles ldirs] in *.
-      destruct (lookup key_eqb k fs); [reflexivity|]. rewrite (missing_notfound _ k Hi HkKS Hne). reflexivity.
+      destruct (lookup key_eqb k fs); reflexivity.
     - (* Exists *)
-      exists (ldirs s). split; [|destruct s; exact Hi]. rewrite (not_is_dir s k Hi HkKS Hne), orb_false_r.
-      destruct s; reflexivity.
+      exists (ldirs s). split; [|destruct s; exact Hi]. destruct s; reflexivity.
     - (* ListDir *)
       exists (ldirs s). split; [|destruct s; exact Hi]. destruct (is_dir s d) eqn:E; [destruct s; reflexivity|].
       rewrite (filter_all_false (under d) (map fst (lfiles s))); [destruct s; reflexivity|].
@@ -589,21 +590,22 @@ Section Local.
         * intros x Hx. apply remove_keys in Hx. apply Hf. exact Hx.
         * exact Hd.
         * intros x p Hx Hpp. apply remove_keys in Hx. eapply Hp; eassumption.
-      + rewrite (not_is_dir s k Hi HkKS Hne). rewrite (remove_absent key_eqb k (lfiles s) El).
+      + rewrite (remove_absent key_eqb k (lfiles s) El).
         exists (ldirs s). split; [destruct s; reflexivity|destruct s; exact Hi].
     - (* Size *)
       exists (ldirs s). split; [|destruct s; exact Hi]. destruct s as [fs ds]. cbn [lfiles ldirs] in *.
-      destruct (lookup key_eqb k fs); [reflexivity|]. rewrite (not_is_dir _ k Hi HkKS Hne), (missing_notfound _ k Hi HkKS Hne). reflexivity.
+      destruct (lookup key_eqb k fs); reflexivity.
     - (* Mtime *)
       exists (ldirs s). split; [|destruct s; exact Hi]. destruct s as [fs ds]. cbn [lfiles ldirs] in *.
-      destruct (lookup key_eqb k fs); [reflexivity|]. rewrite (not_is_dir _ k Hi HkKS Hne), (missing_notfound _ k Hi HkKS Hne). reflexivity.
+      destruct (lookup key_eqb k fs); reflexivity.
     - (* Open *)
       exists (ldirs s). split; [|destruct s; exact Hi]. destruct s as [fs ds]. cbn [lfiles ldirs] in *.
-      destruct (lookup key_eqb k fs); [reflexivity|]. rewrite (missing_notfound _ k Hi HkKS Hne). reflexivity.
+      destruct (lookup key_eqb k fs); reflexivity.
     - (* Stream *)
       exists (ldirs s). split; [|destruct s; exact Hi]. destruct s as [fs ds]. cbn [lfiles ldirs] in *.
-      destruct (lookup key_eqb k fs); [reflexivity|]. rewrite (missing_notfound _ k Hi HkKS Hne). reflexivity.
+      destruct (lookup key_eqb k fs); reflexivity.
     - (* WriteCas: a plain write on a backend without CAS *)
+      pose proof (Hin k (or_introl eq_refl)) as HkKS.
       unfold local_write. rewrite (not_below_file s k Hi HkKS).
       set (dirs' := add_dirs (proper_prefixes k) (ldirs s)).
       assert (dirs_ok KS dirs') as Hd'.
@@ -617,7 +619,7 @@ Section Local.
       + intros x p Hx Hpp. apply add_dirs_In. apply upsert_keys in Hx. destruct Hx as [->|Hx]; [left; exact Hpp|right; eapply Hp; eassumption].
     - (* ReadTag *)
       exists (ldirs s). split; [|destruct s; exact Hi]. destruct s as [fs ds]. cbn [lfiles ldirs] in *.
-      destruct (lookup key_eqb k fs); [reflexivity|]. rewrite (missing_notfound _ k Hi HkKS Hne). reflexivity.
+      destruct (lookup key_eqb k fs); reflexivity.
   Qed.
 
   Lemma map_op_components_join : forall o, wf_op o -> map_op components (map_op join o) = o.
@@ -626,12 +628,20 @@ Section Local.
       rewrite (components_join _ Ho); reflexivity.
   Qed.
 
-  Lemma local_sim_run : forall ops s, linv KS s -> Forall wf_op ops -> (forall o k, In o ops -> In k (op_key o) -> In k KS) ->
+  Lemma local_step_str_join : forall s o, wf_op o -> local_step_str s (map_op join o) = local_step s o.
+  Proof.
+    intros s o Ho. unfold local_step_str. pose proof (map_op_components_join o Ho) as E.
+    destruct o; cbn [map_op] in *; try (rewrite E; reflexivity).
+    (* Exists: a canonical key is never spelled as a directory *)
+    cbn [wf_op] in Ho. rewrite (join_not_dirlike _ Ho). injection E as E. rewrite E. reflexivity.
+  Qed.
+
+  Lemma local_sim_run : forall ops s, linv KS s -> Forall wf_op ops -> (forall o k, In o ops -> In k (op_written o) -> In k KS) ->
     snd (run local_step_str s (map (map_op join) ops)) = snd (run spec_step (lfiles s) ops).
   Proof.
     induction ops as [|o ops IH]; intros s Hi Hops Hks; [reflexivity|].
-    inversion Hops as [|? ? Ho Hops']; subst. cbn [map run]. unfold local_step_str at 1.
-    rewrite (map_op_components_join o Ho).
+    inversion Hops as [|? ? Ho Hops']; subst. cbn [map run].
+    rewrite (local_step_str_join s o Ho).
     destruct (local_sim_step s o Hi Ho (fun k Hk => Hks o k (or_introl eq_refl) Hk)) as [dirs' [E Hi']]. rewrite E.
     destruct (spec_step (lfiles s) o) as [st' ob] eqn:Es. cbn [fst snd] in *.
     specialize (IH _ Hi' Hops' (fun o' k Ho' Hk => Hks o' k (or_intror Ho') Hk)). cbn [lfiles] in IH.
@@ -641,13 +651,13 @@ Section Local.
 End Local.
 
 Theorem refine_local : forall (ops : list (op key)),
-  Forall wf_op ops -> prefix_free (op_keys ops) -> run_local ops = run_spec ops.
+  Forall wf_op ops -> prefix_free (written_keys ops) -> run_local ops = run_spec ops.
 Proof.
   intros ops Hops Hpf. unfold run_local, run_spec.
-  apply (local_sim_run (op_keys ops) Hpf ops linit).
+  apply (local_sim_run (written_keys ops) Hpf ops linit).
   - split; [intros k []|split; [intros p []|intros k p []]].
   - exact Hops.
-  - intros o k Ho Hk. unfold op_keys. apply in_flat_map. exists o. split; assumption.
+  - intros o k Ho Hk. unfold written_keys. apply in_flat_map. exists o. split; assumption.
 Qed.
 
 (* ================================================================ open_seekable after any history *)
@@ -678,7 +688,7 @@ Proof.
 Qed.
 
 Theorem backends_agree : forall (raw_prefix : str) (F : bucket) (ops : list (op key)),
-  foreign_ok (gen_init_prefix raw_prefix) F -> Forall wf_op ops -> prefix_free (op_keys ops) ->
+  foreign_ok (gen_init_prefix raw_prefix) F -> Forall wf_op ops -> prefix_free (written_keys ops) ->
   run_s3 raw_prefix F ops = run_local ops.
 Proof. intros. rewrite refine_s3, refine_local by assumption. reflexivity. Qed.
 
@@ -734,13 +744,23 @@ Proof.
   cbn [repeat app split_acc]. rewrite ascii_eqb_refl. apply IH. exact Hk.
 Qed.
 
+Lemma abs_join_not_dirlike : forall n k, wf_key k -> ends_with (abs_join n k) (lit "/") = false.
+Proof.
+  intros n k [Hne Hk]. destruct (join_last k Hk Hne) as [y [c [E Hc]]]. unfold abs_join. rewrite E, app_assoc. change (lit "/") with [slash].
+  rewrite ends_with_snoc. destruct (Ascii.eqb slash c) eqn:Ec; [apply Ascii.eqb_eq in Ec; subst; contradiction|reflexivity].
+Qed.
+
+Lemma wf_op_segs : forall o, wf_op o -> Forall wf_seg (op_segs o).
+Proof. intros o Ho. destruct o; cbn [wf_op op_segs] in *; try exact Ho; try (destruct Ho as [_ Ho]; exact Ho). destruct Ho as [[_ Ho] _]. exact Ho. Qed.
+
 (* both backends treat any number of leading slashes as the same key, for every operation *)
-Theorem leading_slash_same : forall pfx (b : bucket) (s : lstate) (n : nat) (o : op key), Forall wf_seg (op_segs o) ->
+Theorem leading_slash_same : forall pfx (b : bucket) (s : lstate) (n : nat) (o : op key), wf_op o ->
   s3_step pfx b (map_op (abs_join n) o) = s3_step pfx b (map_op join o)
   /\ local_step_str s (map_op (abs_join n) o) = local_step_str s (map_op join o).
 Proof.
-  intros pfx b s n o Ho. split.
+  intros pfx b s n o Hw. pose proof (wf_op_segs o Hw) as Ho. split.
   - destruct o; cbn [map_op s3_step op_segs] in *; unfold gen_list_prefix, s3_open, s3_get_size, gen_open_key, gen_open_size_path;
       rewrite ?(get_key_abs pfx n _ Ho); reflexivity.
-  - unfold local_step_str. destruct o; cbn [map_op op_segs] in *; rewrite (components_abs n _ Ho), (components_join _ Ho); reflexivity.
+  - unfold local_step_str. destruct o; cbn [map_op op_segs wf_op] in *;
+      rewrite ?(abs_join_not_dirlike n _ Hw), ?(join_not_dirlike _ Hw), (components_abs n _ Ho), (components_join _ Ho); reflexivity.
 Qed.
